@@ -3,26 +3,29 @@ From V.lib Require Import Base.
 From V.c01 Require Import C01Codec C01Model C01Witness.
 From V.c02 Require Import C02Proofs.
 
+(* witnesses of the Size() defects repaired by repo commits c9514d3 (tfdt 4*Version), ede563a (sidx 8*Version)
+   and 6d4574a (unknown box with a large-size header): before the repairs Encode succeeded with fewer bytes
+   than Size(); now bytes written = Size() = size field *)
 Definition t_tfdt_v2 : mbox := MLeaf (mkHdr n_tfdt 20 8) (LTfdt 2 0 5) [].
-Lemma tfdt_v2_refuted : exists t enc, encode_w t = Ok enc /\ encode_sw t = Ok enc /\ lenN enc < size_box t.
-Proof.
-  exists t_tfdt_v2, (match encode_w t_tfdt_v2 with Ok e => e | _ => [] end). vm_compute. repeat split.
-Qed.
+Lemma tfdt_v2_fixed : exists enc, encode_w t_tfdt_v2 = Ok enc /\ encode_sw t_tfdt_v2 = Ok enc /\
+  lenN enc = size_box t_tfdt_v2 /\ hdr_size_field enc = lenN enc.
+Proof. exists (match encode_w t_tfdt_v2 with Ok e => e | _ => [] end). vm_compute. repeat split. Qed.
 
 Definition t_sidx_v2 : mbox := MLeaf (mkHdr n_sidx 40 8) (LSidx 2 0 1 1000 0 0 []) [[0;0]].
-Lemma sidx_v2_refuted : exists t enc, encode_w t = Ok enc /\ lenN enc < size_box t.
-Proof.
-  exists t_sidx_v2, (match encode_w t_sidx_v2 with Ok e => e | _ => [] end). vm_compute. repeat split.
-Qed.
+Lemma sidx_v2_fixed : exists enc, encode_w t_sidx_v2 = Ok enc /\ lenN enc = size_box t_sidx_v2 /\ hdr_size_field enc = lenN enc.
+Proof. exists (match encode_w t_sidx_v2 with Ok e => e | _ => [] end). vm_compute. repeat split. Qed.
 
 Definition w_unknown_large : list N := enc_hdr_large [120;120;120;120] 20 ++ [1;2;3;4].
-Lemma unknown_large_refuted : exists bs t enc,
-  decode bs = Ok (t, []) /\ encode_w t = Ok enc /\ lenN enc < size_box t /\ hdr_size_field enc <> lenN enc.
-Proof.
-  exists w_unknown_large, (treeof w_unknown_large),
-    (match encode_w (treeof w_unknown_large) with Ok e => e | _ => [] end).
-  vm_compute. repeat split. discriminate.
-Qed.
+Lemma unknown_large_fixed : exists t,
+  decode w_unknown_large = Ok (t, []) /\ encode_w t = Ok w_unknown_large /\ lenN w_unknown_large = size_box t /\
+  hdr_size_field w_unknown_large = size_box t.
+Proof. exists (treeof w_unknown_large). vm_compute. repeat split. Qed.
+
+(* still refuted: Size() of hdlr assumes a 4-character HandlerType, EncodeSW writes the string as it is
+   (reachable through the exported field only, not through the decoder) *)
+Definition t_hdlr_bad : mbox := MLeaf (mkHdr n_hdlr 0 8) (LHdlr 0 0 0 [118;105] [] false) [zeros 12].
+Lemma hdlr_refuted : exists enc, encode_w t_hdlr_bad = Ok enc /\ lenN enc < size_box t_hdlr_bad.
+Proof. exists (match encode_w t_hdlr_bad with Ok e => e | _ => [] end). vm_compute. repeat split. Qed.
 
 Definition ex_tree : mbox := ex_moof_tree.
 Lemma ex_tree_ok : size_ok ex_tree = true /\ exists enc, raw_box false ex_tree = Ok enc /\ lenN enc = 120.
